@@ -53,6 +53,29 @@ def expand_message_xmd(msg, dst, len_in_bytes, hname="sha256"):
     return out[:len_in_bytes]
 
 
+@functools.lru_cache(None)
+def leading_zero_message(dst, len_in_bytes, hname="sha256"):
+    """a message for which b_0 and at least one of b_1 .. b_(ell-1) of expand_message_xmd both start with a
+    zero byte (their XOR, taken as an integer, loses a byte): found by search, about 2^16 / ell tries"""
+    probe = hashlib.new(hname)
+    b_in, s_in = probe.digest_size, probe.block_size
+    ell = -(-len_in_bytes // b_in)
+    dst_prime = dst + bytes([len(dst)])
+    for i in range(4000000):
+        msg = b"leading-zero-%d" % i
+        b0 = hashlib.new(hname, bytes(s_in) + msg + len_in_bytes.to_bytes(2, "big") + b"\x00" + dst_prime).digest()
+        if b0[0]:
+            continue
+        bi = hashlib.new(hname, b0 + b"\x01" + dst_prime).digest()
+        n0 = int.from_bytes(b0, "big")
+        for j in range(2, ell + 1):
+            if bi[0] == 0:
+                return msg
+            x = (n0 ^ int.from_bytes(bi, "big")).to_bytes(b_in, "big")
+            bi = hashlib.new(hname, x + bytes([j]) + dst_prime).digest()
+    raise RuntimeError("no message found")
+
+
 # ------------------------------------------------------------------ 5.2
 def hash_to_field(msg, count, dst, m, hname="sha256"):
     """tuple of `count` elements, each an int (m == 1) or an m-tuple of ints"""
